@@ -139,6 +139,13 @@ func (c *ctx) str(label string) string {
 			b.WriteString(rapid.SampledFrom([]string{"img", "v1", "path/"}).Draw(c.t, "w2"))
 		}
 	}
+	if rapid.IntRange(0, 59).Draw(c.t, label+"long") == 0 && len(c.dims) > 0 {
+		// a long string (beyond any small-buffer threshold) with tokens at both ends
+		d := rapid.SampledFrom(c.dims).Draw(c.t, "ldim")
+		s := c.token(d) + strings.Repeat("0123456789abcdef", rapid.IntRange(300, 700).Draw(c.t, "lrep")) + b.String() + c.token(d)
+		c.stats.positions++
+		return s
+	}
 	if hasTok {
 		c.stats.positions++
 	}
